@@ -30,6 +30,24 @@ type Let struct {
 	Expr Clause
 }
 
+// AllocClause: "E" or "E when C" — the growth of the ghost allocation counter is at most E (whenever C holds).
+type AllocClause struct {
+	Bound Clause
+	Cond  *Clause
+	Text  string
+}
+
+func splitWhen(cl Clause) AllocClause {
+	ac := AllocClause{Bound: cl, Text: cl.Text}
+	if i := strings.LastIndex(cl.Text, " when "); i >= 0 {
+		b, c := cl, cl
+		b.Text = strings.TrimSpace(cl.Text[:i])
+		c.Text = strings.TrimSpace(cl.Text[i+len(" when "):])
+		ac.Bound, ac.Cond = b, &c
+	}
+	return ac
+}
+
 type Contract struct {
 	Kind         string // func | iface | type | lemma
 	Pkg          string // package name: ast, hsms, sml
@@ -45,6 +63,7 @@ type Contract struct {
 	Loops        map[int]*LoopContract
 	Inline       bool // no contract of its own: always inlined; may carry loop invariants
 	Trusted      bool // contract is assumed, the body is not verified
+	TrustedPost  bool // the ensures clauses are assumed; safety, frame and allocation obligations of the body are verified
 	Recover      bool // function is a recover scope: panics inside are routed to the deferred closure
 	BoundedView  []Clause // slices that must never be read beyond len (stronger than Go's cap check)
 	TypeName     string   // for Kind == type
@@ -53,9 +72,9 @@ type Contract struct {
 	Line         int
 	Asserts      []Clause
 	Defines      []Clause // iface: definitional postconditions (assumed at calls, not checked on implementers)
-	Allocates    *Clause  // upper bound on the ghost byte counter growth (checked for this function, assumed at its call sites)
-	AllocPanic   *Clause  // bound on the growth when the function exits by a panic (evaluated in the pre-state)
-	AllocAssumed bool     // the bound is assumed only (callee bodies whose allocation is not modelled)
+	Allocates    []AllocClause // upper bounds on the ghost byte counter growth (checked for this function, assumed at its call sites)
+	AllocPanic   []AllocClause // bounds on the growth when the function exits by a panic (evaluated in the pre-state)
+	AllocAssumed bool          // every bound is assumed only (callee bodies whose allocation is not modelled)
 	RacEnsures   []Clause // run-time-only postconditions (bounded search / replay); never counted as proved
 	PanicInv     []Clause // recover scope: holds whenever a panic reaches the deferred closure (assumed; see DESIGN)
 	ResetFirst   []Clause // fields that must be overwritten before anything else happens
@@ -73,7 +92,7 @@ type Contract struct {
 func (c *Contract) Key() string { return c.Pkg + "." + c.Func }
 
 var clauseKW = map[string]bool{
-	"func": true, "iface": true, "type": true, "lemma": true, "predicate": true, "axiom": true, "panic_invariant": true, "rac_ensures": true, "allocates": true, "allocates_on_panic": true, "allocates_assumed": true, "reset_first": true, "property": true, "requires": true, "ensures": true,
+	"func": true, "iface": true, "type": true, "lemma": true, "predicate": true, "axiom": true, "panic_invariant": true, "rac_ensures": true, "allocates": true, "trusted_post": true, "allocates_on_panic": true, "allocates_assumed": true, "reset_first": true, "property": true, "requires": true, "ensures": true,
 	"panics_if": true, "panics_only_if": true, "panics_iff": true, "maypanic": true, "modifies": true,
 	"let": true, "loop": true, "invariant": true, "decreases": true, "inline": true, "trusted": true,
 	"recover": true, "bounded_view": true, "end": true, "defines": true, "view": true, "split": true, "establishes": true, "owns": true,
@@ -287,12 +306,12 @@ func parseContractText(text, path, pkg string, cs *ContractSet) error {
 				for _, v := range strings.Split(rc.text[i+4:], ",") {
 					c.SplitVals = append(c.SplitVals, strings.TrimSpace(v))
 				}
+			case "trusted_post":
+				c.TrustedPost = true
 			case "allocates_on_panic":
-				cc := cl
-				c.AllocPanic = &cc
+				c.AllocPanic = append(c.AllocPanic, splitWhen(cl))
 			case "allocates", "allocates_assumed":
-				cc := cl
-				c.Allocates = &cc
+				c.Allocates = append(c.Allocates, splitWhen(cl))
 				c.AllocAssumed = rc.kw == "allocates_assumed"
 			case "rac_ensures":
 				c.RacEnsures = append(c.RacEnsures, cl)
